@@ -2,7 +2,7 @@
 import vf
 HARNESSES = {
     "lr_replay": (["plain", "asan"], None),
-    "scan_run": (["plain"], None),
+    "scan_run": (["plain", "asan"], None),
     "model_run": (["plain", "asan"], None),
     "replay_range": (["asan"], None),
     "record": (["plain", "asan"], None),
